@@ -120,6 +120,10 @@ static void cmp_prelude(cls_t *c)
     spif_obj_t o[16]; int n = c->n_build < 16 ? c->n_build : 16;
     for (int i = 0; i < n; i++) o[i] = c->build(i);
     for (int r = 0; r < 80; r++) for (int i = 0; i < n; i++) for (int j = 0; j < n; j++) if (o[i] && o[j]) (void) SPIF_OBJ_COMP(o[i], o[j]);
+    /* and a pair against a bare key (the one comparison across classes that the library defines), 150 times */
+    { spif_str_t f = spif_str_new_from_ptr((spif_charptr_t) "k");
+      for (int r = 0; r < 150; r++) for (int i = 0; i < n; i++) if (o[i] && SPIF_OBJ_IS_OBJPAIR(o[i])) (void) SPIF_OBJ_COMP(o[i], SPIF_OBJ(f));
+      spif_str_del(f); }
     for (int i = 0; i < n; i++) if (o[i]) SPIF_OBJ_DEL(o[i]);
 }
 static void cmp_case(uint64_t idx, void *ctx)
@@ -213,6 +217,38 @@ static void eq_case(uint64_t idx, void *ctx)
     mc_nontrivial();
     mc_outcome(mc_hash_str(before) + idx);
 }
+/* ------------------------------------------------------------------ string operations on objects of the classes derived from str: the object stays what it is */
+static const char *PC_TEXT[] = { " \t  ", "  http://h/p  ", "a.c", "", NULL };       /* NULL: no text at all (as after new()) */
+static const char *PC_OP[] = { "trim()", "clear('x')", "reverse()", "upcase()", "downcase()", "append_char('z')", "splice(0, 1, NULL)", "append_from_ptr(\" \")+trim()" };
+#define NPCT 5
+#define NPCO 8
+static void pc_desc(uint64_t idx, void *ctx, char *b, size_t n) { (void) ctx; char e[40]; const char *t = PC_TEXT[idx / NPCO % NPCT]; if (t) mc_esc(t, strlen(t), e, sizeof e); else snprintf(e, sizeof e, "(no text)"); snprintf(b, n, "%s from \"%s\", spif_str_%s on it, then class, type(), dup, comp with the copy, del", idx / NPCO / NPCT ? "regexp" : "url", e, PC_OP[idx % NPCO]); }
+static void pc_case(uint64_t idx, void *ctx)
+{
+    int op = (int) (idx % NPCO), isre = (int) (idx / NPCO / NPCT); const char *t = PC_TEXT[idx / NPCO % NPCT]; (void) ctx;
+    const char *shape = isre ? "regexp through the str interface" : "url through the str interface"; mc_set_shape(shape);
+    spif_obj_t o = isre ? SPIF_OBJ(spif_regexp_new_from_ptr((spif_charptr_t) t)) : SPIF_OBJ(spif_url_new_from_ptr((spif_charptr_t) t));
+    if (!o) return;
+    spif_class_t k0 = SPIF_OBJ_CLASS(o); spif_str_t s = SPIF_STR(o);
+    switch (op) {
+    case 0: spif_str_trim(s); break; case 1: spif_str_clear(s, 'x'); break; case 2: spif_str_reverse(s); break; case 3: spif_str_upcase(s); break; case 4: spif_str_downcase(s); break;
+    case 5: spif_str_append_char(s, 'z'); break; case 6: spif_str_splice_from_ptr(s, 0, 1, (spif_charptr_t) NULL); break; case 7: spif_str_append_from_ptr(s, (spif_charptr_t) " "); spif_str_trim(s); break;
+    }
+    const char *want = isre ? "!spif_regexp_t!" : "!spif_url_t!";
+    if (SPIF_OBJ_CLASS(o) != k0) FAIL("spif_str", "model:class", shape, "after spif_str_%s the object's class record is another one (%s)", PC_OP[op], SPIF_OBJ_CLASS(o) ? (char *) SPIF_OBJ_CLASS(o)->classname : "none");
+    else {
+        spif_classname_t ty = SPIF_OBJ_TYPE(o);
+        if (!ty || strcmp((char *) ty, want)) FAIL("spif_str", "model:classname", shape, "after spif_str_%s type() gives \"%.20s\", expected %s", PC_OP[op], ty ? (char *) ty : "(null)", want);
+        spif_obj_t d = SPIF_OBJ_DUP(o);
+        if (!d) FAIL("dup", "model:return", shape, "dup returned NULL");
+        else { if (SPIF_OBJ_CLASS(d) != k0) FAIL("dup", "model:class", shape, "the copy is of another class");
+            if (!SPIF_CMP_IS_EQUAL(SPIF_OBJ_COMP(o, d))) FAIL("comp", "model:copy-not-equal", shape, "the object and its copy do not compare EQUAL after spif_str_%s", PC_OP[op]);
+            SPIF_OBJ_DEL(d); }
+    }
+    if (SPIF_OBJ_CLASS(o) == k0) SPIF_OBJ_DEL(o); else { if (isre) spif_regexp_del(SPIF_REGEXP(o)); else spif_url_del(SPIF_URL(o)); }
+    mc_nontrivial();
+    mc_outcome(idx);
+}
 int main(int argc, char **argv)
 {
     mc_init("C05", argc, argv);
@@ -226,5 +262,6 @@ int main(int argc, char **argv)
     mc_e2_level("comp", 1, NCC, cmp_case, cmp_desc, NULL);
     mc_e2_level("obj_identity", 1, (uint64_t) NADDR * NADDR, id_case, id_desc, NULL);
     mc_e2_level("equal_comparing_elements", 3, 12, eq_case, eq_desc, NULL);
+    mc_e2_level("str_interface_on_derived_classes", 1, 2 * NPCT * NPCO, pc_case, pc_desc, NULL);
     return mc_finish();
 }
